@@ -577,7 +577,8 @@ def parseChunk(raw):  # reading transfer encoded raw
         for ext in exts:
             ext = ext.strip()
             name, sep, value = ext.partition(b'=')
-            parms[name.strip()] = value.strip() or None
+            name = name.strip().decode('iso-8859-1')  # bytearray is unhashable
+            parms[name] = value.strip().decode('iso-8859-1') or None
 
     if size == 0:  # last chunk so parse trailing headers if any
         leaderParser = parseLeader(raw=raw,
